@@ -11,7 +11,9 @@ Per case (same case format as C20, tools/C20_okl.py):
        T2  every @shared / @exclusive declaration and the `_occa_exclusive_index` declaration is inside the body of
            that loop (so it is private to the iteration);
        T3  every statement that was `@atomic` in the OKL source is immediately preceded by `#pragma omp atomic` or
-           `#pragma omp critical`.
+           `#pragma omp critical`;
+       X1/X2 (tools/C20_run.py exclusive_index_check) one reset of `_occa_exclusive_index` per inner nest in the body of
+           the inner-most @outer loop and one increment per inner nest in the body of the inner-most @inner loop.
      The checker knows the printer's line shapes and refuses (T?) a source it does not fully understand.
  (H) the kernel is JIT-built and run by the real library on an OpenMP device with OMP_NUM_THREADS in C21_THREADS
      (each value C21_REPS times) and on a Serial device; in addition the emitted OpenMP source, with
@@ -241,6 +243,7 @@ def main():
                 notes[i].append("T? no OpenMP translation")
                 continue
             notes[i] += structure_check(K, open(kf).read())
+            notes[i] += R20.exclusive_index_check(K, open(kf).read())
         # (H) through the library
         obs = {i: {} for i in idx}
 
